@@ -51,6 +51,16 @@ def _has_id_intersection(parent: 'Task', children: Iterable['Task']):
     return len(parent_tree_ids.intersection(new_task_ids)) > 0
 
 
+def _check_no_links_with_ancestors(task: 'Task', new_parent: 'Task'):
+    """Task (with its subtree) can't be placed under a task it has dependency links with"""
+    ancestors = [new_parent] + [t for t in new_parent.all_parents]
+    for t in _collect_subtree(task):
+        for a in ancestors:
+            if a in t.predecessors or a in t.successors:
+                raise RuntimeError(f"Task {t.id} has dependency link with task {a.id}. "
+                                   f"Can't make it a child of this task")
+
+
 def _check_not_none(obj: Any, name: str):
     if obj is None:
         raise RuntimeError(f"{name} is None")
@@ -727,6 +737,7 @@ class Task:
             if parent in self.all_children:
                 raise RuntimeError(f"Task {parent.id} is a child of task {self.id}. Can't make child "
                                    f"a parent of its parent")
+            _check_no_links_with_ancestors(self, parent)
 
         if self.__parent is not None and self in self.__parent.__children:
             self.__parent.__children.remove(self)
@@ -792,6 +803,7 @@ class Task:
                 raise RuntimeError(f"Task {self.id} can't be a child of itself")
             if self in ch.all_children:
                 raise RuntimeError(f"Task {self.id} is a child of {ch.id}. Can't make child a parent of its parent")
+            _check_no_links_with_ancestors(ch, self)
 
         for v in self.__children:
             v.__parent = None
@@ -834,6 +846,8 @@ class Task:
                 raise RuntimeError("Can't set task as its own predecessor")
             if v in parents:
                 raise RuntimeError("Can't set parent as predecessor")
+            if v in self.all_children:
+                raise RuntimeError("Can't set child as predecessor")
 
         for v in value:
             if self in v.all_predecessors:
@@ -882,6 +896,8 @@ class Task:
                 raise RuntimeError("Can't set task as its own successor")
             if v in parents:
                 raise RuntimeError("Can't set parent as successor")
+            if v in self.all_children:
+                raise RuntimeError("Can't set child as successor")
 
         for v in value:
             if self in v.all_successors:
